@@ -536,6 +536,41 @@ class S:
             return CTX.xr.tanh(self)
         return S(fn("tanh", self.n), self.nd)
 
+    # compositions of the above, as NumPy documents them (so that a kernel rewritten with log1p / expm1 / ... stays within reach)
+    def log1p(self):
+        return (self + 1).log()
+
+    def expm1(self):
+        return self.exp() - 1
+
+    def log2(self):
+        return self.log() / float(np.log(2.0))
+
+    def log10(self):
+        return self.log() / float(np.log(10.0))
+
+    def exp2(self):
+        return (self * float(np.log(2.0))).exp()
+
+    def square(self):
+        return self * self
+
+    def reciprocal(self):
+        return 1 / self
+
+    def sinh(self):
+        e = self.exp()
+        return (e - 1 / e) / 2
+
+    def cosh(self):
+        e = self.exp()
+        return (e + 1 / e) / 2
+
+    def fabs(self):
+        return abs(self)
+
+    absolute = fabs
+
     def conjugate(self):
         return self
 
